@@ -377,7 +377,8 @@ type Deferred struct {
 	Args     []Val
 	Instr    *ssa.Defer
 	Call     *ssa.CallCommon
-	Injected string // pending defer carried across a loop cut (label of the pending-defer clause)
+	Injected string     // pending defer carried across a loop cut (label of the pending-defer clause)
+	InjT     types.Type // type of the variable named by the pending-defer clause
 }
 
 type Frame struct {
